@@ -38,12 +38,14 @@ CHECKERS = {
     'graph': GC.check_graph,
     'reach': lambda inp, mods, rng: SC.check_reach_only(inp, mods),
     'solve': lambda inp, mods, rng: SC.check_solve(inp, mods),
+    'solve-history': lambda inp, mods, rng: SC.check_solve_history(inp, mods),
     'repeat': lambda inp, mods, rng: SC.check_repeat(inp, mods, rng),
     'permute': lambda inp, mods, rng: SC.check_permutation(inp, mods, rng),
 }
 SUITES = {}
 for p in ('C01', 'C02', 'C03', 'C04', 'C05', 'C06', 'C14'):
-    SUITES[p] = [dict(name='solve-small-games', gen=games, checker='solve')]
+    SUITES[p] = [dict(name='solve-small-games', gen=games, checker='solve'),
+                 dict(name='solve-after-solve-on-one-object', gen=games_few, checker='solve-history')]
 for p in ('C01', 'C04'):
     SUITES[p] = SUITES[p] + [dict(name='reach-phase-nonabsorbing-finals', gen=games_nonabs, checker='reach')]
 SUITES['C10'] = [dict(name='solve-small-games', gen=games, checker='solve'), dict(name='repeat-sequences', gen=games_few, checker='repeat')]
